@@ -460,6 +460,13 @@ func (c *Ctx) sliceSortedAfter(ph *ssa.Phi, in map[*ssa.BasicBlock]bool) (bool, 
 	if sortCall == nil {
 		return false, "elements are appended to a slice in map order and the slice is used without being sorted"
 	}
+	// the sort must impose a total order on the elements themselves: sort.Slice with a comparator that looks
+	// at something derived from the elements (a field, a map lookup) leaves ties in map order (and is not stable)
+	if call, ok := sortCall.(ssa.CallInstruction); ok {
+		if d, ok := ana.Describe(call.Common()); ok && d.Pkg == "sort" && !sortIsTotal(call, d) {
+			return false, "the slice filled in map order is sorted by sort." + d.Name + " with a comparator that does not order the elements themselves: elements that compare equal stay in map order"
+		}
+	}
 	for _, u := range uses {
 		if u == sortCall {
 			continue
@@ -515,6 +522,9 @@ func (c *Ctx) orderInsensitiveStore(f *ssa.Function, st *ssa.Store, in map[*ssa.
 									if cc, ok := r3.(ssa.CallInstruction); ok {
 										if d, ok := ana.Describe(cc.Common()); ok && d.Pkg == "sort" {
 											sorted = true
+											if !sortIsTotal(cc, d) {
+												return false, "the slice filled in map order is sorted by sort." + d.Name + " with a comparator that does not order the elements themselves: elements that compare equal stay in map order"
+											}
 										}
 									}
 								}
@@ -635,7 +645,6 @@ func constInt64(k *ssa.Const) (int64, bool) {
 	return n, true
 }
 
-
 // moduleGlobal: a package-level variable declared in the repository's own packages.
 func moduleGlobal(g *ssa.Global) bool {
 	return g != nil && g.Pkg != nil && g.Pkg.Pkg != nil && strings.Contains(g.Pkg.Pkg.Path(), "MinterTeam/mhub2")
@@ -672,7 +681,6 @@ func globalRoot(v ssa.Value) *ssa.Global {
 	}
 	return nil
 }
-
 
 type globalWrite struct {
 	f   *ssa.Function
@@ -743,4 +751,67 @@ func (c *Ctx) globalWrites(fns map[*ssa.Function]bool, nRefs *int) []globalWrite
 		})
 	}
 	return out
+}
+
+// comparesElements: every return of the comparator is  s[i] < s[j]  (or >) on the elements of the captured
+// slice indexed by the two parameters – a total order when the elements are distinct (map keys).
+func comparesElements(less *ssa.Function) bool {
+	if len(less.Params) != 2 || len(less.FreeVars) == 0 {
+		return false
+	}
+	isElem := func(v ssa.Value, par *ssa.Parameter) bool {
+		ld, ok := v.(*ssa.UnOp)
+		if !ok || ld.Op != token.MUL {
+			return false
+		}
+		ia, ok := ld.X.(*ssa.IndexAddr)
+		if !ok || ia.Index != ssa.Value(par) {
+			return false
+		}
+		// the indexed slice is a captured variable
+		x := ia.X
+		if l2, ok := x.(*ssa.UnOp); ok && l2.Op == token.MUL {
+			x = l2.X
+		}
+		_, isFree := x.(*ssa.FreeVar)
+		return isFree
+	}
+	ok := true
+	n := 0
+	ana.Instrs(less, func(in ssa.Instruction) {
+		ret, isRet := in.(*ssa.Return)
+		if !isRet || in.Parent() != less || len(ret.Results) != 1 {
+			return
+		}
+		n++
+		bo, isB := ret.Results[0].(*ssa.BinOp)
+		if !isB || (bo.Op != token.LSS && bo.Op != token.GTR) {
+			ok = false
+			return
+		}
+		i, j := less.Params[0], less.Params[1]
+		if !(isElem(bo.X, i) && isElem(bo.Y, j)) && !(isElem(bo.X, j) && isElem(bo.Y, i)) {
+			ok = false
+		}
+	})
+	return ok && n > 0
+}
+
+// sortIsTotal: sort.Strings / Ints / Float64s order the elements themselves; sort.Slice(Stable) does when its
+// comparator compares s[i] with s[j]; sort.Sort / Stable on a user type is not analysed (treated as not total).
+func sortIsTotal(call ssa.CallInstruction, d ana.CalleeDesc) bool {
+	switch d.Name {
+	case "Strings", "Ints", "Float64s":
+		return true
+	case "Slice", "SliceStable":
+		args := call.Common().Args
+		if len(args) == 2 {
+			if mc, ok := args[1].(*ssa.MakeClosure); ok {
+				if less, ok := mc.Fn.(*ssa.Function); ok {
+					return comparesElements(less)
+				}
+			}
+		}
+	}
+	return false
 }
